@@ -23,6 +23,13 @@ the model with the committed repairs, which is the variant the behavioural probe
 | "Reading a corpus file and writing it back never merges, splits or drops tests, whatever delimiter lengths and suffixes it uses" | `roundtrip_suffixed` / `parse_write_roundtrip_partial` / `roundtrip_built` (every list of `SimpleS` corrections, all delimiter lengths ≥ 3, every admissible suffix: one entry per correction, in order, same name / attribute text / flags / input / delimiter lengths / expectation read back); `splitIncl_flatten` (reading loses no bytes); exactness witnesses `roundtrip_fails_delimiter_in_input`, `roundtrip_fails_equal_dash_in_output`, `roundtrip_fails_own_suffix_in_input`, `roundtrip_fails_equals_line_unsuffixed`, `roundtrip_fails_untrimmed_name` | proved for WRITTEN files (`parse (write cs)`); "read then write then read" for an arbitrary file `f` follows only when `(parse f)`'s entries satisfy `SimpleS` — that is a hypothesis on `f`, measured per run through the correspondence of `parseFile` with the real `parse_tests` and the judge's `classify`.  Delimiter lengths < 3 are not delimiters. |
 | (implicit) the Ok/Err result, directory runs, `strip_sexp_fields` | `updateStatus`, directory mode, `stripSexpFields` — modelled and corresponded, no theorem | correspondence only |
 
+How "well-formed" is applied to the REAL files (judge, `Judge.lean`): clause `read-differs` (unguarded) — the real reader returns
+the tests that `parseFile` delimits; all other clauses are judged when `canonB` holds: the file's tests, with the expectations a
+correct update writes, written in canonical form read back (by `parseFile`) with the same names, attribute text, inputs, delimiter
+lengths.  `SimpleS` (decidable, `SimpleDec.lean`) implies `canonB` by `roundtrip_built`; the check asserts this on every case and
+reports both fractions (quick: `canonB` 512/515, `SimpleS` 386/515).  Files outside `canonB` are those where an input / expectation
+line to be written is itself a delimiter of the file (witnesses `roundtrip_fails_*`).
+
 Everything above is about the MODEL; the step to the Rust code is the per-run correspondence (entries, rewritten bytes of two
 update rounds, status, second file of directory runs: equal on every explored file) and the judge on the real files.
 -/
